@@ -105,7 +105,7 @@ def run_harnesses(prop, harnesses, tier, failing=()):
         elif "VERIFICATION:- FAILED" in b:
             failed = re.findall(r"Failed Checks: (.*)", b)
             r.update(status="failed", summary="; ".join(failed[:3]) or "verification failed", output=b[-3000:])
-            cmd2, out2, _ = _cargo_kani([h["harness"]], ["-Z", "concrete-playback", "--concrete-playback=print"], timeout=h.get("timeout", 600))
+            cmd2, out2, _ = _cargo_kani([h["harness"]], list(h.get("flags", ())) + ["-Z", "concrete-playback", "--concrete-playback=print"], timeout=h.get("timeout", 600))
             inp = _concrete(h["harness"], out2)
             if inp and h["harness"] == "tu64_decodes_exactly":
                 n = min(int(inp["len"]), 9)
